@@ -560,7 +560,7 @@ fn death_is_precondition(stderr: &str) -> bool {
 
 /// Runs the case and says whether it fails in the way `target` describes. Returns the skipped
 /// op indices (for the minimiser) and a description of what was observed.
-fn fails_like(prop: &str, cfg: &Config, ops: &[Op], target: &Target, tag: &str) -> Option<(Vec<usize>, Value)> {
+fn fails_like(prop: &str, cfg: &Config, ops: &[Op], target: &Target, tag: &str, fl: &str) -> Option<(Vec<usize>, Value)> {
     let case = tmp_dir().join(format!("case-{}-{}.json", std::process::id(), tag));
     write_case(&case, prop, cfg, ops, json!({}));
     let res = match target {
@@ -585,7 +585,7 @@ fn fails_like(prop: &str, cfg: &Config, ops: &[Op], target: &Target, tag: &str) 
             }
         }
         _ => {
-            let end = exec_child(&exe_for("checked"), &case, false);
+            let end = exec_child(&exe_for(fl), &case, false);
             match (target, end) {
                 (Target::Key(k), ChildEnd::Result(v)) => {
                     let got = v.get("violation").cloned().unwrap_or(Value::Null);
@@ -634,7 +634,8 @@ pub fn cmd_replay(args: &Args) -> i32 {
         "cross_build" => Target::CrossBuild,
         _ => Target::Key(v.get("key").and_then(|x| x.as_str()).unwrap_or("").to_string()),
     };
-    match fails_like(&prop, &cfg, &ops, &target, "replay") {
+    let fl = v.get("flavours").and_then(|x| x.as_array()).and_then(|a| a.get(0)).and_then(|x| x.as_str()).unwrap_or("checked").to_string();
+    match fails_like(&prop, &cfg, &ops, &target, "replay", &fl) {
         Some((_, got)) => {
             let same = |k: &str| got.get(k) == v.get(k) || v.get(k).is_none() || kind != "oracle";
             if !(same("observed") && same("expected") && same("at_op")) {
@@ -716,6 +717,7 @@ fn load_known() -> Known {
 // check
 
 struct Failure {
+    flavour: &'static str,
     scenario: String,
     run: u64,
     target: Target,
@@ -764,7 +766,7 @@ pub fn cmd_check(args: &Args) -> i32 {
         per_scenario.push(json!({"scenario": scenario, "flavour": "checked", "runs": b.agg.runs, "ops": b.agg.executed, "evaluations": b.agg.evals, "wall_s": b.wall, "runs_per_hour": (b.agg.runs as f64 / b.wall.max(0.001) * 3600.0) as u64}));
         for (run, v) in &b.violations {
             if v.prop == prop {
-                failures.push(Failure { scenario: scenario.to_string(), run: *run, target: Target::Key(v.key.clone()), key: v.key.clone(), detail: violation_json(v) });
+                failures.push(Failure { flavour: "checked", scenario: scenario.to_string(), run: *run, target: Target::Key(v.key.clone()), key: v.key.clone(), detail: violation_json(v) });
             }
         }
         for a in &b.aborts {
@@ -775,6 +777,7 @@ pub fn cmd_check(args: &Args) -> i32 {
             if relevant {
                 let key = if hang { "hang".to_string() } else if pre { "abort|std_unsafe_precondition".to_string() } else { "abort".to_string() };
                 failures.push(Failure {
+                    flavour: "checked",
                     scenario: scenario.to_string(),
                     run: a.run,
                     target: if hang { Target::Hang } else { Target::Death { std_precondition: pre } },
@@ -796,6 +799,22 @@ pub fn cmd_check(args: &Args) -> i32 {
                 }
             }
         }
+        // the differential properties also run in the shipping build (no debug assertions that
+        // could mask a wrong answer behind a panic), on further run indices
+        if matches!(prop.as_str(), "C06" | "C07" | "C10" | "C12" | "C18" | "C20") {
+            let extra = (n / 3).max(1);
+            let sb = run_batch(&exe_for("ship"), &prop, scenario, seed, n, 1, n + extra, jobs, deadline_s);
+            println!("  scenario {:9} ship   : {} runs, {} ops, {} oracle evaluations, {:.1} s, violations {}, aborts {}", scenario, sb.agg.runs, sb.agg.executed, sb.agg.evals, sb.wall, sb.violations.len(), sb.aborts.len());
+            per_scenario.push(json!({"scenario": scenario, "flavour": "ship", "runs": sb.agg.runs, "ops": sb.agg.executed, "evaluations": sb.agg.evals, "wall_s": sb.wall, "runs_per_hour": (sb.agg.runs as f64 / sb.wall.max(0.001) * 3600.0) as u64}));
+            truncated |= sb.truncated;
+            for (run, v) in &sb.violations {
+                if v.prop == prop {
+                    failures.push(Failure { flavour: "ship", scenario: scenario.to_string(), run: *run, target: Target::Key(v.key.clone()), key: v.key.clone(), detail: violation_json(v) });
+                }
+            }
+            total.aborted_by_panic += sb.aborts.len() as u64;
+            total.merge_json(&sb.agg.to_json());
+        }
         // C01, second clause: the shipping build returns exactly the same hits
         if prop == "C01" {
             let sb = run_batch(&exe_for("ship"), &prop, scenario, seed, 0, 1, n, jobs, deadline_s);
@@ -806,12 +825,12 @@ pub fn cmd_check(args: &Args) -> i32 {
             for (run, v) in &sb.violations {
                 if v.prop == prop && !bad_checked.contains(run) {
                     // a panic that only the shipping build has: replayed through the cross-build target
-                    failures.push(Failure { scenario: scenario.to_string(), run: *run, target: Target::CrossBuild, key: "C01.cross_build".into(), detail: violation_json(v) });
+                    failures.push(Failure { flavour: "checked", scenario: scenario.to_string(), run: *run, target: Target::CrossBuild, key: "C01.cross_build".into(), detail: violation_json(v) });
                 }
             }
             for a in &sb.aborts {
                 if !bad_checked.contains(&a.run) {
-                    failures.push(Failure { scenario: scenario.to_string(), run: a.run, target: Target::CrossBuild, key: "C01.cross_build".into(), detail: json!({"observed": format!("shipping build: {} {}", a.what, a.stderr)}) });
+                    failures.push(Failure { flavour: "checked", scenario: scenario.to_string(), run: a.run, target: Target::CrossBuild, key: "C01.cross_build".into(), detail: json!({"observed": format!("shipping build: {} {}", a.what, a.stderr)}) });
                 }
             }
             for (run, d) in &b.digests {
@@ -821,7 +840,7 @@ pub fn cmd_check(args: &Args) -> i32 {
                 if let Some(ds) = sb.digests.get(run) {
                     cross_runs += 1;
                     if ds != d {
-                        failures.push(Failure { scenario: scenario.to_string(), run: *run, target: Target::CrossBuild, key: "C01.cross_build".into(), detail: json!({"observed": format!("history digest {:016x} (checked) vs {:016x} (shipping)", d, ds)}) });
+                        failures.push(Failure { flavour: "checked", scenario: scenario.to_string(), run: *run, target: Target::CrossBuild, key: "C01.cross_build".into(), detail: json!({"observed": format!("history digest {:016x} (checked) vs {:016x} (shipping)", d, ds)}) });
                     }
                 }
             }
@@ -864,7 +883,7 @@ pub fn cmd_check(args: &Args) -> i32 {
         }
         let (f, cfg, ops) = best.unwrap();
         let original_len = ops.len();
-        let first = fails_like(&prop, &cfg, &ops, &f.target, "first");
+        let first = fails_like(&prop, &cfg, &ops, &f.target, "first", f.flavour);
         let (cfg, ops, detail, tried) = match first {
             None => {
                 eprintln!("lsim: run {} of scenario {} reported {} in its worker but not when re-executed alone; harness error", f.run, f.scenario, key);
@@ -875,17 +894,18 @@ pub fn cmd_check(args: &Args) -> i32 {
                 let mut counter = 0usize;
                 let target = f.target.clone();
                 let p = prop.clone();
+                let fl = f.flavour;
                 let mut test = |c: &Config, o: &[Op]| -> Option<Vec<usize>> {
                     counter += 1;
-                    fails_like(&p, c, o, &target, &format!("min{}", counter)).map(|(s, _)| s)
+                    fails_like(&p, c, o, &target, &format!("min{}", counter), fl).map(|(s, _)| s)
                 };
                 let budget = if matches!(f.target, Target::Hang) { 20 } else { 3000 };
                 let (c2, o2, tried) = minimise::minimise(&cfg, &ops, at_op, budget, &mut test);
-                let d2 = fails_like(&prop, &c2, &o2, &f.target, "final").map(|(_, d)| d).unwrap_or(d);
+                let d2 = fails_like(&prop, &c2, &o2, &f.target, "final", f.flavour).map(|(_, d)| d).unwrap_or(d);
                 (c2, o2, d2, tried)
             }
         };
-        let path = replay_dir.join(format!("{}-{}-{}-{}.json", prop, seed, f.scenario, f.run));
+        let path = replay_dir.join(format!("{}-{}-{}-{}{}.json", prop, seed, f.scenario, f.run, if f.flavour == "ship" { "-ship" } else { "" }));
         let kind = match f.target {
             Target::Key(_) => "oracle",
             Target::Death { .. } => "abort",
@@ -893,7 +913,7 @@ pub fn cmd_check(args: &Args) -> i32 {
             Target::CrossBuild => "cross_build",
         };
         let mut extra = json!({
-            "seed": seed, "run": f.run, "flavours": if kind == "cross_build" { json!(["checked", "ship"]) } else { json!(["checked"]) },
+            "seed": seed, "run": f.run, "flavours": if kind == "cross_build" { json!(["checked", "ship"]) } else { json!([f.flavour]) },
             "failure_kind": kind, "key": key, "minimised_from_ops": original_len, "minimiser_candidates": tried,
             "std_precondition": matches!(f.target, Target::Death { std_precondition: true }),
         });
@@ -961,7 +981,7 @@ fn rule_for(prop: &str) -> &'static str {
         "C01" => "seeded histories of add/limit/marker/search calls (hist), registry calls (registry) and permuted deliveries (replica), each executed in the checked build (debug assertions, overflow checks, hooks) and in the shipping build; oracle: no panic/abort/hang on any op and identical history digests across the two builds. Non-trivial = distinct op list in which a search returned a hit and the history also changed the limit or the markers.",
         "C06" => "seeded histories on stores of 0..400 records; at sampled searches the hit list is compared with one single-record store per hit (soundness, any size) and, for n <= 10*limit, with the prefix of an unlimited fresh store and the set of records that hit alone. Non-trivial = distinct op list with a compared search that had >= 2 hits and n > limit.",
         "C07" => "the same add messages delivered to 2-4 replicas in different orders on differently polluted caller threads; after delivery all replicas must answer identically, and pairs of hits re-delivered alone (both orders) must keep their relative order. Non-trivial = distinct op list in which two replicas received a returned pair in opposite orders, or a pair check ran on >= 2 hits.",
-        "C10" => "seeded histories over {add, clear, set limit, set markers, search} with scratch pollution, thread migration, fresh threads, capacity knob; the first 37448 run indices enumerate all histories of 1..5 ops over an 8-op alphabet. At every search the store under test (long-lived, polluted) must equal a store rebuilt from the logical state on a pristine thread. Non-trivial = distinct op list in which a compared search returned >= 1 hit after a state-changing op that followed an earlier search on the same store.",
+        "C10" => "seeded histories over {add, clear, set limit, set markers, search} with scratch pollution, thread migration, fresh threads, capacity knob; the even run indices below 74896 enumerate all histories of 1..5 ops over an 8-op alphabet. At every search the store under test (long-lived, polluted) must equal a store rebuilt from the logical state on a pristine thread. Non-trivial = distinct op list in which a compared search returned >= 1 hit after a state-changing op that followed an earlier search on the same store.",
         "C12" => "as C10 with rating ties, duplicate titles, limits 0..n+2 and separator-only queries; spec oracle computed from the model's (rating, normalised title) list only. Non-trivial = distinct op list with an empty-query search where n > limit >= 1 and there was a rating tie or an add since the previous empty-query search.",
         "C16" => "long-lived DamerauLevenshtein instances per simulated caller thread (capacity knob 0..20), several clients' planned comparisons interleaved by the scheduler, lengths alternating 0..4 and 15..70, plus every ordered pair of words of length <= 3 over a 6-symbol mixed alphabet (first 1049 run indices). Oracles: bit-equality with a fresh instance on a pristine thread, prefix cells vs. own computation, symmetry, identity, half-steps, Levenshtein upper bound, half unrestricted-Damerau lower bound, discount monotonicity; word_match through the thread-local scratch vs. pristine thread. Non-trivial = distinct op list with a call whose predecessor on the same instance was longer or that triggered growth.",
         "C17" => "long-lived Jaccard instances per simulated caller thread (capacity knob), interleaved clients, lengths alternating short/long, plus the systematic pairs; oracle: bit-equality with |A∩B|/|A∪B| over BTreeSet, symmetry, range, invariance under repetition/permutation, equality with a fresh instance. Non-trivial = distinct op list with a call whose predecessor was longer or that exceeded the initial capacity.",
@@ -1064,7 +1084,7 @@ fn build_evidence(prop: &str, tier: &str, seed: u64, a: &Agg, per_scenario: &[Va
                 "stub": [],
                 "not_run": ["rust/wasm (wasm-bindgen forwarding layer)", "javascript/ (promise-chain wrapper)"]
             },
-            "flavours": if prop == "C01" { json!(["checked (debug assertions, overflow checks, hooks)", "ship (release, hooks compiled out)"]) } else { json!(["checked (debug assertions, overflow checks, hooks)"]) },
+            "flavours": if matches!(prop, "C16" | "C17" | "C19") { json!(["checked (debug assertions, overflow checks, hooks)"]) } else { json!(["checked (debug assertions, overflow checks, hooks)", "ship (release, hooks compiled out)"]) },
         },
         "assumptions": assumptions_for(prop),
     })
